@@ -82,3 +82,11 @@ pub fn grid_thin(exps: &[i32], nfr: usize, stream: u64) -> Vec<[f64; 2]> {
 pub fn words(x: [f64; 2]) -> [u64; 2] {
     [x[0].to_bits(), x[1].to_bits()]
 }
+
+/// exponent ladder "log-uniformly towards 0": every exponent in [-70, hi] (quick) or in [lo, hi]
+/// (thorough), and every 13th one below -70 in the quick tier
+pub fn dense_exps(lo: i32, hi: i32, quick: bool) -> Vec<i32> {
+    let mut v: Vec<i32> = if quick { (lo..=hi).filter(|e| *e >= -70 || (e - lo) % 13 == 0).collect() } else { (lo..=hi).collect() };
+    v.dedup();
+    v
+}
